@@ -4,7 +4,7 @@ import subprocess, sys, os, json
 ROOT = os.path.dirname(os.path.dirname(os.path.abspath(__file__)))
 sys.path.insert(0, os.path.join(ROOT, 'tools'))
 import props as P
-REPO = os.environ.get('VERIF_REPO', REPO)
+REPO = os.environ.get('VERIF_REPO', '/repo')
 seeds = sys.argv[1].split(',') if len(sys.argv) > 1 and sys.argv[1] != 'all' else sorted(os.listdir(os.path.join(ROOT, 'seeded')))
 checks = sys.argv[2].split(',') if len(sys.argv) > 2 else sorted(P.PROPS)
 assert subprocess.run(['git', '-C', REPO, 'status', '--porcelain'], capture_output=True, text=True).stdout.strip() == '', '/repo not clean'
